@@ -141,9 +141,9 @@ def mon_c15(case_line, trace):
                   and len(co) == 1 and any(t.lower() == b'upgrade' for t in tokens(co[0]))
                   and len(ve) == 1 and ve[0] == b'13' and len(ke) == 1 and not after and len(hs) <= 124 and plain_head(inbound, consumed))
     wrote_101 = wire.startswith(b'HTTP/1.1 101')
-    if outcome == 'ok' and not some_valid:
+    if outcome == 'ok' and not some_valid and plain_head(inbound, consumed):
         return 'accepted-invalid: server handshake succeeded on a request that is not a valid upgrade: %r' % line[:60]
-    if wrote_101 and not some_valid:
+    if wrote_101 and not some_valid and plain_head(inbound, consumed):
         return '101-on-invalid: a 101 response was written for an invalid request'
     if once_valid and cb.split(':')[0] in ('none', 'add') and not hard_transport(evs):
         if outcome not in ('ok', 'blocked'):
@@ -309,7 +309,8 @@ def mon_c16(case_line, trace, mline):
                   and (not sp or any(v in offered for v in sp)))
     once_valid = (status_ok and len(up) == 1 and up[0].lower() == b'websocket' and len(co) == 1 and co[0].lower() == b'upgrade'
                   and ac == [accept_for(key)] and ((len(sp) == 1 and sp[0] in offered) if offered else len(sp) == 0) and len(rhs) <= 124 and plain_head(inbound, rcons))
-    if outcome == 'ok' and not some_valid:
+    if outcome == 'ok' and not some_valid and plain_head(inbound, rcons):
+        # (for heads with bare CR/LF or other oddities the line structure is the parser's business - an oracle of the model)
         return 'accepted-bad-response: client handshake succeeded on response %r with accept %r (expected %r)' % (rline[:40], ac, accept_for(key))
     if once_valid and not transport_bad and outcome not in ('ok', 'blocked'):
         return 'rejected-good-response: %s' % outcome
